@@ -261,19 +261,53 @@ Theorem C09_g_last_monotone :
 Proof. exact g_last_monotone. Qed.
 Print Assumptions C09_g_last_monotone.
 
-(* FULL statement aimed at: not-found  <->  the newest commit the group has stored is older than the cut-off.
-   Proved: not-found <-> g_last < cut-off (inside the int64 guard), with g_last characterised step by step by the two theorems
-   above (and over histories by StorageWindows.h_ginfo, props/C02.v).  NOT proved here (hence _partial): the state invariant
-   "every timestamp in stored_ts grp is <= g_last grp", which would restate the right-hand side as "every stored commit is
-   older than the cut-off"; the converse of that restatement is false by design (a commit merged into its predecessor keeps
-   the predecessor's timestamp in the ring while raising lastCommit, and ring eviction forgets old commits). *)
-Theorem C09_purged_iff_newest_commit_expired_partial :
+(* in every reachable state every commit a group stores has a timestamp <= the group's g_last (ring level: a slot of the new
+   ring carries the arriving commit's timestamp or an old slot's; storage level: g_last' = max ts g_last when stored; deletes
+   and purges only remove) *)
+Theorem C09_stored_timestamps_below_last :
+  forall cf cls h s reps c cl g grp x,
+    run cf (init_state cls) h = Some (s, reps) ->
+    get s c = Some cl -> get (cl_consumer cl) g = Some grp -> In x (stored_ts grp) -> x <= g_last grp.
+Proof. exact stored_timestamps_below_last. Qed.
+Print Assumptions C09_stored_timestamps_below_last.
+
+Theorem C09_step_preserves_stored_below_last :
+  forall cf now s r s' rep, ts_inv s -> step cf now s r = Done s' rep -> ts_inv s'.
+Proof. exact step_ts_inv. Qed.
+Print Assumptions C09_step_preserves_stored_below_last.
+
+(* the direction users rely on, at full strength: a group reported as not found by a fetch stores only commits older than the
+   cut-off - a group with ANY stored commit inside the expiry time is never purged (all histories, inside the int64 guard) *)
+Theorem C09_purged_only_if_all_stored_expired :
+  forall cf cls h s reps now c g cl grp,
+    run cf (init_state cls) h = Some (s, reps) -> in_i64 ((now - cf_expire cf) * 1000) ->
+    get s c = Some cl -> get (cl_consumer cl) g = Some grp ->
+    obs cf now s (FetchConsumer c g) = Some RNil ->
+    forall x, In x (stored_ts grp) -> x < (now - cf_expire cf) * 1000.
+Proof. exact purged_only_if_all_stored_expired. Qed.
+Print Assumptions C09_purged_only_if_all_stored_expired.
+
+(* the property's own direction, as an equivalence in terms of the group's newest commit time g_last (the largest own timestamp
+   of a commit the group stored - C09_stored_commit_raises_last, C09_g_last_after_commit, C09_g_last_monotone): *)
+Theorem C09_notfound_iff_newest_commit_expired :
   forall cf now s c g cl grp,
     in_i64 ((now - cf_expire cf) * 1000) ->
     get s c = Some cl -> get (cl_consumer cl) g = Some grp ->
     (obs cf now s (FetchConsumer c g) = Some RNil <-> g_last grp < (now - cf_expire cf) * 1000).
 Proof. exact purged_iff_last_expired. Qed.
-Print Assumptions C09_purged_iff_newest_commit_expired_partial.
+Print Assumptions C09_notfound_iff_newest_commit_expired.
+
+(* the asymmetry, made visible: "every STORED timestamp is older than the cut-off" does not imply not-found, and must not - a
+   commit merged by min-distance leaves its predecessor's timestamp in the ring while the group's newest commit time is its own
+   (and ring eviction forgets old commits).  mg_state: the ring stores 1 599 999 300 only, g_last = 1 600 000 000; at
+   1 601 000 s the cut-off is 1 600 000 000: all stored timestamps are older, the group is still reported. *)
+Example C09_ex_all_stored_expired_yet_reported :
+  exists cf cls h s reps now c g cl grp,
+    run cf (init_state cls) h = Some (s, reps) /\ in_i64 ((now - cf_expire cf) * 1000) /\
+    get s c = Some cl /\ get (cl_consumer cl) g = Some grp /\
+    (forall x, In x (stored_ts grp) -> x < (now - cf_expire cf) * 1000) /\
+    obs cf now s (FetchConsumer c g) <> Some RNil.
+Proof. exact all_stored_expired_yet_reported. Qed.
 
 (* documentation of the behaviour before the repair (audit witness, then replayed on the real code): with
    "lastCommit = timestamp of the last APPENDED commit" the group of lc_hist was purged 700 s early; now g_last = 1 900 000,
